@@ -1,6 +1,9 @@
 #![allow(dead_code)]
 mod util;
+mod gen;
 mod lexspec;
+mod pp;
+mod p01;
 mod p03;
 mod p10;
 mod p23;
@@ -34,6 +37,7 @@ fn main() {
     std::panic::set_hook(Box::new(|_| {}));
     let mut ctx = Ctx::new(&prop, &tier, seed, out);
     match prop.as_str() {
+        "C01" => p01::run(&mut ctx),
         "C03" => p03::run(&mut ctx),
         "C10" => p10::run(&mut ctx),
         "C23" => p23::run(&mut ctx),
